@@ -77,7 +77,7 @@ fn check(case: &str) -> Option<String> {
             // one long-lived parser: failed items (inside quote shorthands, lists, vectors) must not use up the nesting budget - a
             // well-formed datum nested 100 levels is still accepted afterwards
             let datum = p[1] == "1";
-            for bad in ["'#z ", "`#z ", ",@#z ", "(#z) ", "#(#z) ", "'(#z) ", "(a . #z) ", "''#z ", "[#z] ", "#u8(#z) "] {
+            for bad in ["'#z ", "`#z ", ",@#z ", "(#z) ", "#(#z) ", "'(#z) ", "(a . #z) ", "''#z ", "[#z] "] {
                 let text = format!("{}{}{}", bad.repeat(160), "(".repeat(100), ")".repeat(100));
                 let mut parser = Parser::from_str(&text);
                 let (mut last, mut ok) = (String::new(), false);
